@@ -327,3 +327,223 @@ Proof.
       * eapply parses_seq; [apply parses_chars0_nil; exact eq_refl|apply (parses_tag G_xml [62] r)].
     + unfold build_entity. destruct (external_id_parts_of sys pub Hx) as [E1 E2]. rewrite E1, E2. reflexivity.
 Qed.
+
+(** ** notation declarations *)
+Lemma body_notation_decl : body G_xml nt_notation_decl =
+  Map L_model_DeclarationNotation_from
+    (Seq (SeqR (Seq (Tag [60;33;78;79;84;65;84;73;79;78]) (Chars1 ws)) (NT nt_name))
+         (SeqR (Chars1 ws) (SeqL (Alt (Map L_model_DeclarationNotationId_from (NT nt_external_id))
+                                      (Map L_model_DeclarationNotationId_from (NT nt_public_id)))
+                                 (Seq (Chars0 ws) (Tag [62]))))).
+Proof. reflexivity. Qed.
+Lemma body_public_id : body G_xml nt_public_id = SeqR (Seq (Tag [80;85;66;76;73;67]) (Chars1 ws)) (NT nt_pubid_literal).
+Proof. reflexivity. Qed.
+
+Definition notation_wf (n : notation) : Prop :=
+  name_ok (no_name n) /\ no_name n <> [] /\
+  match no_system n, no_public n with
+  | Some s, p => ext_ok (Some s) p
+  | None, Some p => pubid_ok p
+  | None, None => False
+  end.
+
+Definition notation_id_of (n : notation) : notation_id :=
+  match no_system n, no_public n with
+  | Some s, p => NiExternal (ext_of (Some s) p)
+  | None, Some p => NiPublic p
+  | None, None => NiPublic []
+  end.
+
+Theorem notation_decl_rt (n : notation) (r : str) : notation_wf n ->
+  yields (NT nt_notation_decl) (d_notation n ++ r) (VDeclNotation (DeclNotation (no_name n) (notation_id_of n))) r
+  /\ build_notation (DeclNotation (no_name n) (notation_id_of n)) = n.
+Proof.
+  destruct n as [name sys pub]. unfold notation_wf, notation_id_of, d_notation. cbn [no_name no_system no_public].
+  intros [Hn [Hne Hid]].
+  assert (forall z : str, P (Seq (SeqR (Seq (Tag [60;33;78;79;84;65;84;73;79;78]) (Chars1 ws)) (NT nt_name)) (Chars1 ws))
+                            (s_notation_open ++ name ++ 32 :: z) (TPair (TStr name) (TStr [32])) z -> True) as _ by auto.
+  assert (forall z : str, stops (eval ws) z ->
+            exists t, P (SeqR (Seq (Tag [60;33;78;79;84;65;84;73;79;78]) (Chars1 ws)) (NT nt_name))
+                        (s_notation_open ++ name ++ 32 :: z) t (32 :: z) /\ t = TStr name) as Hhead.
+  { intros z Hz. exists (TStr name). split; [|reflexivity]. unfold s_notation_open.
+    change ([60;33;78;79;84;65;84;73;79;78;32] ++ name ++ 32 :: z) with ([60;33;78;79;84;65;84;73;79;78] ++ [32] ++ name ++ 32 :: z).
+    eapply parses_seqr.
+    - eapply parses_seq; [apply parses_tag|]. apply parses_chars1; [discriminate|reflexivity|].
+      destruct (name_ok_not_ws_head name Hn Hne) as [c [t [-> Hc]]]. exact Hc.
+    - apply parses_name; [exact Hn|exact eq_refl]. }
+  destruct sys as [s|].
+  - (* SYSTEM / PUBLIC with system literal *)
+    destruct (external_id_rt (Some s) pub (62 :: r) Hid) as [t [Et Hy]]. split.
+    + apply yields_nt. rewrite body_notation_decl.
+      apply (yields_map' (VPair (VStr name) (VNotationId (NiExternal (ext_of (Some s) pub))))); [reflexivity|].
+      rewrite Et. norm_app.
+      assert (exists c u, t = c :: u /\ eval ws c = false) as [c [u [Ec Hc]]].
+      { unfold d_external, s_public, s_system in Et. destruct pub; injection Et as <-; eexists; eexists; split; reflexivity. }
+      destruct (Hhead (t ++ 62 :: r)) as [th [Hp ->]]; [rewrite Ec; exact Hc|].
+      eapply yields_seq; [apply yields_str; exact Hp|].
+      eapply yields_seqr; [apply (parses_chars1 G_xml ws [32]); [discriminate|reflexivity|rewrite Ec; exact Hc]|].
+      eapply yields_seql.
+      { apply yields_alt_l. apply (yields_map' (VExternalId (ext_of (Some s) pub))); [reflexivity|]. exact Hy. }
+      eapply parses_seq; [apply parses_chars0_nil; exact eq_refl|apply (parses_tag G_xml [62] r)].
+    + unfold build_notation. cbn [dn_id dn_name]. destruct pub; reflexivity.
+  - destruct pub as [p|]; [|destruct Hid]. split; [|reflexivity].
+    apply yields_nt. rewrite body_notation_decl.
+    apply (yields_map' (VPair (VStr name) (VNotationId (NiPublic p)))); [reflexivity|].
+    unfold d_external, s_public. norm_app.
+    destruct (Hhead (80 :: 85 :: 66 :: 76 :: 73 :: 67 :: 32 :: escape p ++ 62 :: r) eq_refl) as [th [Hp ->]].
+    eapply yields_seq; [apply yields_str; exact Hp|].
+    eapply yields_seqr; [apply (parses_chars1 G_xml ws [32]); [discriminate|reflexivity|exact eq_refl]|].
+    destruct (escape_head_quote p) as [q [t [Eq Hq]]].
+    eapply yields_seql.
+    { apply yields_alt_r.
+      - apply fails_map. apply fails_nt. rewrite body_external_id. apply fails_alt.
+        + apply fails_map. apply fails_seqr_l. apply fails_seq_l. apply fails_tag. reflexivity.
+        + apply fails_map. eapply fails_seqr_r.
+          * eapply parses_seq; [tag|]. apply (parses_chars1 G_xml ws [32]); [discriminate|reflexivity|rewrite Eq; exact Hq].
+          * destruct (pubid_literal_rt p (62 :: r) Hid) as [tp [Hpp _]].
+            eapply fails_seq_r; [exact Hpp|]. apply fails_seqr_l. apply fails_chars1. exact eq_refl.
+      - apply (yields_map' (VStr p)); [reflexivity|]. apply yields_nt. rewrite body_public_id.
+        eapply yields_seqr; [|apply pubid_literal_rt; exact Hid].
+        eapply parses_seq; [tag|]. apply (parses_chars1 G_xml ws [32]); [discriminate|reflexivity|rewrite Eq; exact Hq]. }
+    eapply parses_seq; [apply parses_chars0_nil; exact eq_refl|apply (parses_tag G_xml [62] r)].
+Qed.
+
+(** ** attribute-list declarations *)
+Definition bar_sep : pexpr := Seq (Chars0 ws) (Seq (Tag [124]) (Chars0 ws)).
+
+Lemma body_att_type : body G_xml nt_att_type =
+  Alt (NT nt_enumerated_type) (Alt (Map L_closure_aad7a7dd (Tag [67;68;65;84;65])) (Alt (Map L_closure_13274102 (Tag [73;68;82;69;70;83]))
+  (Alt (Map L_closure_37dcd20d (Tag [73;68;82;69;70])) (Alt (Map L_closure_965707e8 (Tag [73;68])) (Alt (Map L_closure_cb1d4c33 (Tag [69;78;84;73;84;73;69;83]))
+  (Alt (Map L_closure_f8f5585b (Tag [69;78;84;73;84;89])) (Alt (Map L_closure_cf16e71f (Tag [78;77;84;79;75;69;78;83])) (Map L_closure_1e7e0608 (Tag [78;77;84;79;75;69;78]))))))))).
+Proof. reflexivity. Qed.
+Lemma body_enumerated_type : body G_xml nt_enumerated_type =
+  Alt (Map L_model_DeclarationAttType_Notation (NT nt_notation_type)) (Map L_model_DeclarationAttType_Enumeration (NT nt_enumeration)).
+Proof. reflexivity. Qed.
+Lemma body_notation_type : body G_xml nt_notation_type =
+  Map L_closure_441e6bc9 (SeqR (Seq (Tag [78;79;84;65;84;73;79;78]) (Seq (Chars1 ws) (Seq (Tag [40]) (Chars0 ws))))
+    (SeqL (Seq (NT nt_name) (Many0 (SeqR bar_sep (NT nt_name)))) (Seq (Chars0 ws) (Tag [41])))).
+Proof. reflexivity. Qed.
+Lemma body_enumeration : body G_xml nt_enumeration =
+  Map L_closure_441e6bc9 (SeqR (Seq (Tag [40]) (Chars0 ws))
+    (SeqL (Seq (NT nt_nmtoken) (Many0 (SeqR bar_sep (NT nt_nmtoken)))) (Seq (Chars0 ws) (Tag [41])))).
+Proof. reflexivity. Qed.
+Lemma body_nmtoken : body G_xml nt_nmtoken = Chars1 is_name_char.
+Proof. reflexivity. Qed.
+
+Definition nmtoken_ok (x : str) : Prop := x <> [] /\ name_ok x.
+
+Lemma parses_nmtoken (x z : str) : nmtoken_ok x -> stops (eval is_name_char) z -> P (NT nt_nmtoken) (x ++ z) (TStr x) z.
+Proof. intros [Hne Hx] Hz. apply parses_nt. rewrite body_nmtoken. apply parses_chars1; assumption. Qed.
+
+Lemma join_bar_cons (f : str) (l : list str) : join_bar (f :: l) = f ++ flat_map (fun x => 124 :: x) l.
+Proof.
+  revert f. induction l as [|y l IH]; intros f.
+  - cbn [join_bar flat_map]. rewrite app_nil_r. reflexivity.
+  - change (join_bar (f :: y :: l)) with (f ++ 124 :: join_bar (y :: l)). rewrite IH. reflexivity.
+Qed.
+
+Lemma stops_ws_name_or (x z : str) c : name_ok x -> z = c :: [] ++ z -> True.
+Proof. auto. Qed.
+
+(** `|x|y ... )` after the first item *)
+Lemma bar_list_rt (it : pexpr) (okp : str -> Prop) :
+  (forall x, okp x -> name_ok x) ->
+  (forall x z, okp x -> stops (eval is_name_char) z -> P it (x ++ z) (TStr x) z) ->
+  forall (l : list str) (z : str), Forall okp l ->
+    many_yields (SeqR bar_sep it) (flat_map (fun x => 124 :: x) l ++ 41 :: z) (map VStr l) (41 :: z).
+Proof.
+  intros Hname Hit. induction l as [|x l IH]; intros z Hl.
+  - cbn [flat_map app map]. apply my_stop. apply fails_seqr_l. unfold bar_sep.
+    eapply fails_seq_r; [apply parses_chars0_nil; exact eq_refl|]. apply fails_seq_l. apply fails_tag. reflexivity.
+  - inversion Hl as [|? ? Hx Hl']; subst. cbn [flat_map map]. norm_app.
+    assert (stops (eval is_name_char) (flat_map (fun x => 124 :: x) l ++ 41 :: z)) as Hst.
+    { destruct l; cbn [flat_map app]; exact eq_refl. }
+    eapply my_step; [| |apply IH; exact Hl'].
+    + eapply yields_seqr; [|apply yields_str; apply Hit; [exact Hx|exact Hst]].
+      unfold bar_sep. eapply parses_seq; [apply parses_chars0_nil; exact eq_refl|].
+      eapply parses_seq; [tag|]. apply parses_chars0_nil.
+      pose proof (Hname x Hx) as Hn. destruct x as [|c x'].
+      * cbn [app]. destruct l; cbn [flat_map app]; exact eq_refl.
+      * cbn [app stops]. apply name_char_not_ws. unfold name_ok in Hn. cbn [forallb] in Hn. apply andb_prop in Hn. tauto.
+    + cbn [length]. rewrite (app_length x). unfold str, char in *. lia.
+Qed.
+
+Definition att_type_wf (t : att_type) : Prop :=
+  match t with
+  | AtNotation l => l <> [] /\ Forall name_ok l
+  | AtEnumeration l => l <> [] /\ Forall nmtoken_ok l
+  | _ => True
+  end.
+
+Lemma al_441e (f : str) (l : list str) :
+  apply_label L_closure_441e6bc9 (VPair (VStr f) (VList (map VStr l))) = VList (map VStr (f :: l)).
+Proof. reflexivity. Qed.
+Lemma al_notation_type (l : list str) : apply_label L_model_DeclarationAttType_Notation (VList (map VStr l)) = VAttType (AtNotation l).
+Proof.
+  change (apply_label L_model_DeclarationAttType_Notation (VList (map VStr l)))
+    with (ret (fun x => VAttType (AtNotation x)) (as_list as_str (VList (map VStr l)))).
+  rewrite as_list_map by reflexivity. reflexivity.
+Qed.
+Lemma al_enumeration_type (l : list str) : apply_label L_model_DeclarationAttType_Enumeration (VList (map VStr l)) = VAttType (AtEnumeration l).
+Proof.
+  change (apply_label L_model_DeclarationAttType_Enumeration (VList (map VStr l)))
+    with (ret (fun x => VAttType (AtEnumeration x)) (as_list as_str (VList (map VStr l)))).
+  rewrite as_list_map by reflexivity. reflexivity.
+Qed.
+
+Lemma fails_enumerated_type (s : str) : prefix [78;79;84;65;84;73;79;78] s = None -> prefix [40] s = None -> F (NT nt_enumerated_type) s.
+Proof.
+  intros H1 H2. apply fails_nt. rewrite body_enumerated_type. apply fails_alt; apply fails_map; apply fails_nt.
+  - rewrite body_notation_type. apply fails_map. apply fails_seqr_l. apply fails_seq_l. apply fails_tag. exact H1.
+  - rewrite body_enumeration. apply fails_map. apply fails_seqr_l. apply fails_seq_l. apply fails_tag. exact H2.
+Qed.
+
+Theorem att_type_rt (t : att_type) (r : str) : att_type_wf t ->
+  yields (NT nt_att_type) (d_att_type t ++ 32 :: r) (VAttType t) (32 :: r).
+Proof.
+  intros Hw. apply yields_nt. rewrite body_att_type.
+  destruct t as [| | | | | | | |l|l]; cbn [d_att_type att_type_wf] in *.
+  1-8: apply yields_alt_r; [apply fails_enumerated_type; reflexivity|].
+  - (* CDATA *) apply yields_alt_l. apply (yields_map' (VStr [67;68;65;84;65])); [reflexivity|]. apply yields_str. tag.
+  - (* ENTITIES *) do 4 (apply yields_alt_r; [apply fails_map; apply fails_tag; reflexivity|]).
+    apply yields_alt_l. apply (yields_map' (VStr [69;78;84;73;84;73;69;83])); [reflexivity|]. apply yields_str. tag.
+  - (* ENTITY *) do 5 (apply yields_alt_r; [apply fails_map; apply fails_tag; reflexivity|]).
+    apply yields_alt_l. apply (yields_map' (VStr [69;78;84;73;84;89])); [reflexivity|]. apply yields_str. tag.
+  - (* ID *) do 3 (apply yields_alt_r; [apply fails_map; apply fails_tag; reflexivity|]).
+    apply yields_alt_l. apply (yields_map' (VStr [73;68])); [reflexivity|]. apply yields_str. tag.
+  - (* IDREF *) do 2 (apply yields_alt_r; [apply fails_map; apply fails_tag; reflexivity|]).
+    apply yields_alt_l. apply (yields_map' (VStr [73;68;82;69;70])); [reflexivity|]. apply yields_str. tag.
+  - (* IDREFS *) do 1 (apply yields_alt_r; [apply fails_map; apply fails_tag; reflexivity|]).
+    apply yields_alt_l. apply (yields_map' (VStr [73;68;82;69;70;83])); [reflexivity|]. apply yields_str. tag.
+  - (* NMTOKEN *) do 7 (apply yields_alt_r; [apply fails_map; apply fails_tag; reflexivity|]).
+    apply (yields_map' (VStr [78;77;84;79;75;69;78])); [reflexivity|]. apply yields_str. tag.
+  - (* NMTOKENS *) do 6 (apply yields_alt_r; [apply fails_map; apply fails_tag; reflexivity|]).
+    apply yields_alt_l. apply (yields_map' (VStr [78;77;84;79;75;69;78;83])); [reflexivity|]. apply yields_str. tag.
+  - (* NOTATION (a|b) *) destruct Hw as [Hne Hl]. destruct l as [|f l]; [contradiction|]. inversion Hl as [|? ? Hf Hl']; subst.
+    apply yields_alt_l. apply yields_nt. rewrite body_enumerated_type. apply yields_alt_l.
+    eapply yields_map'; [apply al_notation_type|]. apply yields_nt. rewrite body_notation_type.
+    eapply yields_map'; [apply al_441e|]. unfold s_notation_paren. rewrite join_bar_cons. norm_app.
+    eapply yields_seqr.
+    { eapply parses_seq; [tag|]. eapply parses_seq; [sp|]. eapply parses_seq; [tag|].
+      apply parses_chars0_nil. destruct f as [|c f']; [destruct l; cbn [flat_map app]; exact eq_refl|].
+      cbn [app stops]. apply name_char_not_ws. unfold name_ok in Hf. cbn [forallb] in Hf. apply andb_prop in Hf. tauto. }
+    eapply yields_seql.
+    { eapply yields_seq.
+      - apply yields_str. apply parses_name; [exact Hf|]. destruct l; cbn [flat_map app]; exact eq_refl.
+      - apply yields_many0. apply (bar_list_rt (NT nt_name) name_ok); [auto|intros; apply parses_name; assumption|exact Hl']. }
+    eapply parses_seq; [apply parses_chars0_nil; exact eq_refl|tag].
+  - (* (a|b) *) destruct Hw as [Hne Hl]. destruct l as [|f l]; [contradiction|]. inversion Hl as [|? ? Hf Hl']; subst.
+    apply yields_alt_l. apply yields_nt. rewrite body_enumerated_type. apply yields_alt_r.
+    { apply fails_map. apply fails_nt. rewrite body_notation_type. apply fails_map. apply fails_seqr_l. apply fails_seq_l.
+      apply fails_tag. reflexivity. }
+    eapply yields_map'; [apply al_enumeration_type|]. apply yields_nt. rewrite body_enumeration.
+    eapply yields_map'; [apply al_441e|]. rewrite join_bar_cons. norm_app.
+    eapply yields_seqr.
+    { eapply parses_seq; [tag|]. apply parses_chars0_nil. destruct Hf as [Hfn Hf]. destruct f as [|c f']; [contradiction|].
+      cbn [app stops]. apply name_char_not_ws. unfold name_ok in Hf. cbn [forallb] in Hf. apply andb_prop in Hf. tauto. }
+    eapply yields_seql.
+    { eapply yields_seq.
+      - apply yields_str. apply parses_nmtoken; [exact Hf|]. destruct l; cbn [flat_map app]; exact eq_refl.
+      - apply yields_many0. apply (bar_list_rt (NT nt_nmtoken) nmtoken_ok); [intros x [_ H]; exact H|intros; apply parses_nmtoken; assumption|exact Hl']. }
+    eapply parses_seq; [apply parses_chars0_nil; exact eq_refl|tag].
+Qed.
